@@ -1545,5 +1545,6 @@ func runC17(r *Rng, tier string, n int) {
 	runKeyText(r)
 	runRaw()
 	runGen(r, tier)
+	runConcurrent(r, tier) // conc.go: the same calls from many goroutines at once
 	Stat(st)
 }
